@@ -254,15 +254,13 @@ Qed.
 (* C02b / C06: the output of a successful assembly satisfies the layout invariant for its banks and items:
    no two items share an output bit, every item lies inside its bank's size and window at
    outp + (addr - addr_start) * unit + bit offset, every bit outside the items is zero, and the length is exactly
-   the end of the last written item or filled bank -- for results without a zero-sized WRITTEN item (the same
-   restriction as C06_layout: a zero-sized instruction/data encoding extends the output, finding F49) -- and the
-   windows of the user-defined banks are pairwise disjoint. *)
+   the end of the last item with bits or filled bank -- for EVERY successful assembly (since the F49 repair a zero-sized
+   written item no longer extends the output) -- and the windows of the user-defined banks are pairwise disjoint. *)
 Theorem C02b_output_is_layout_ok indexed defs ps budget r :
   assemble2 indexed defs ps budget = Ok r ->
-  Forall OutputP.no_empty_emit (r_nodes r) ->
   LayoutInv.layout_ok (r_banks r) (r_items r) (r_bits r) = true /\ LayoutInv.windows_ok (r_banks r) = true.
 Proof.
-  intros H Hne.
+  intros H.
   destruct (assemble2_certificate _ _ _ _ _ H) as (m & ns & st1 & st & _ & _ & _ & _ & Ho & _).
   unfold Output.output_stage in Ho.
   destruct (Output.check_bank_overlap (r_banks r)) as [[]| |] eqn:W; try discriminate.
@@ -271,8 +269,8 @@ Proof.
   - apply OutputP.bank_windows_b. exact W.
 Qed.
 
-(* without the restriction: everything except the exact length (zero-sized written items count in the
-   length), and the written bits are the encodings *)
+(* the same clause by clause (the length as a formula: zero-sized items do not count), and the written bits are the
+   encodings *)
 Theorem C02b_output_layout_partial indexed defs ps budget r :
   assemble2 indexed defs ps budget = Ok r ->
   forallb (LayoutInv.item_ok (r_banks r)) (r_items r) = true /\
